@@ -123,7 +123,7 @@ impl Prop for C14 {
 		"A scenario is a schema biased to nested records (inside records / arrays / unions) and bytes presented as length-less sequences, a history of <= 8 serialization attempts on ONE SerializerConfig (each with its own presentation: field permutation at every nesting level, omitted nullable fields, struct vs map, seq with/without length) and two probes. \
 		 Enumerated fault space: for every attempt, a caller failure of each kind {Err, wrong type, missing field, duplicated field, sequence abandoned without end()} at EVERY serde-call index, and a hard sink error after EVERY accepted byte count (sink plan Fixed(1)); plus sampled histories with several failing attempts (capped per scenario, sampled above the cap). \
 		 After the failing attempt and after the last attempt both probes are serialized on the used configuration and must be byte-identical to a fresh configuration's output; successful attempts are compared with their fresh-configuration bytes; nothing may panic (debug assertions are on, so the crate's pool assertions are live). \
-		 An evaluation is one attempt or probe serialization. Distinct = distinct (fault kind, nesting depth of the failure, attempt outcome, out-of-order presentation?, probe allocation-count bucket = pool state). Values are presented through the canonical serde calls or (per-node coin) the other calls the crate documents as equivalent (collect_str, char, other integer widths, integers for decimals, tuples, struct variants, Some(v) ...); a third of the schemas put decimals on a fixed wider than 16 bytes; one scenario in forty is deliberately large-scale (hundreds of reordered fields, long arrays, deep lists)."
+		 An evaluation is one attempt or probe serialization. Distinct = distinct (fault kind, nesting depth of the failure, attempt outcome, out-of-order presentation?, probe allocation-count bucket = pool state). One scenario in forty is ONE long history instead of the enumeration: the attempts are cycled through 40-1600 times on one configuration, 5-100 % of them failing at a drawn point (caller failure of a drawn kind, or sink error after a drawn byte count), with probes after a quarter of the failures, every 64 attempts and at the end. Values are presented through the canonical serde calls or (per-node coin) the other calls the crate documents as equivalent (collect_str, char, other integer widths, integers for decimals, tuples, struct variants, Some(v) ...); a third of the schemas put decimals on a fixed wider than 16 bytes; one scenario in forty is deliberately large-scale (hundreds of reordered fields, long arrays, deep lists)."
 	}
 	fn assumptions(&self) -> Vec<String> {
 		vec![
